@@ -5,6 +5,7 @@ package streams
 // solver model is replayed against the real build (go test -overlay).
 
 import (
+	"runtime"
 	"encoding/json"
 	"fmt"
 	"math/big"
@@ -183,6 +184,17 @@ func vRunReplay(entries map[string]func()) {
 		vCnt = map[string]int{}
 		done := make(chan string, 1)
 		go func() {
+			// allocation marker for alloc/proportional counterexamples: the harness inputs are a few bytes,
+			// so a run that allocates more than 256 KiB in total did allocate out of proportion
+			var m0 runtime.MemStats
+			runtime.ReadMemStats(&m0)
+			defer func() {
+				var m1 runtime.MemStats
+				runtime.ReadMemStats(&m1)
+				if d := m1.TotalAlloc - m0.TotalAlloc; d > 256<<10 {
+					fmt.Printf("VALLOC %d\n", d)
+				}
+			}()
 			defer func() {
 				if r := recover(); r != nil {
 					if _, ok := r.(vStop); ok {
